@@ -170,7 +170,12 @@ def apply(obj, o, case, is_cube):
         return obj ** o["exp"]
     if op == "to":
         return obj.to(u.Unit(o["unit"]) if case["wseed"] % 2 else o["unit"])       # a Unit object or its string
-    return PY[op](obj, operand_value(o["operand"], case))
+    x = operand_value(o["operand"], case)
+    frozen = C.freeze(x) if is_cube and not hasattr(x, "wcs") else None
+    out = PY[op](obj, x)
+    if frozen is not None and C.freeze(x) != frozen:
+        raise AssertionError(f"operand-edited: the {o['op']} changed the operand the caller passed in (now {x!r})")
+    return out
 
 
 def quantity_of(cube):
@@ -249,6 +254,9 @@ def run(case):
                 cur = apply(cur, o, case, True)
                 if o["op"] in ("pow", "rdiv", "div") and not np.all(np.isfinite(np.asarray(C.materialize(cur.data), dtype=float))):
                     nonfinite = True       # a division by zero on the way: numpy's inf, outside the rational model
+            except AssertionError as e:
+                fails.append(str(e)[:200])
+                break
             except Exception as e:
                 impl_err, impl_at = err_kind(e), k
         if ref_err or impl_err:
